@@ -50,8 +50,11 @@ def _conn(entries):
 PARAMS = {'pat': int, 'f0': bool, 'f1': bool, 'f2': bool, 'a0': int, 'a1': int, 'a2': int}
 
 
+C14_PATTERNS = [PATTERNS[0], PATTERNS[1], PATTERNS[-1], PATTERNS[2]]     # [-1]: a lot held at zero cost
+
+
 def _setup(kw):
-    pattern = pick(PATTERNS, kw['pat'])
+    pattern = pick(C14_PATTERNS, kw['pat'])
     flags = [True if kw.get(f'f{i}') else False for i in range(3)]
     accs = [pick(ACCOUNTS, kw[f'a{i}']) for i in range(3)]
     return build(pattern, flags, accs)
@@ -62,13 +65,13 @@ FROMS = [(None, lambda t: True), ('year = 2019', lambda t: t.date.year == 2019),
 
 def make_balances(fname):
     @cond(f'C14.balances.{fname or "plain"}', quick=300, thorough=900,
-          bounds='3 postings (2 amount / lot patterns) on accounts chosen among 6 over the five root types (3 x 3 assignments), in 2 transactions; '
+          bounds='3 postings (3 amount / lot patterns, one with a lot held at zero cost) on accounts chosen among 6 over the five root types (3 x 3 assignments), in 2 transactions; '
                  f'BALANCES {"AT " + fname if fname else ""} [FROM year = 2019 | flag = "*"] [WHERE posting_flag = "!"]: one row per '
                  'account with the inventory sum, ordered by account type then name; equal to the SELECT expansion',
           symbolic='posting selection bits, presence of WHERE', enumerated='amount pattern, accounts, FROM form',
           params={'pat': int, 'f0': bool, 'f1': bool, 'a0': int, 'a1': int, 'where': bool, 'frm': int}, group='C14.balances')
     def balances(where, frm, **kw):
-        kw = dict(kw, pat=enum_int(kw['pat'], 0, 1), a0=enum_int(kw['a0'], 0, 2), a1=enum_int(kw['a1'], 3, 5), a2=0, f2=True)
+        kw = dict(kw, pat=enum_int(kw['pat'], 0, 2), a0=enum_int(kw['a0'], 0, 2), a1=enum_int(kw['a1'], 3, 5), a2=0, f2=True)
         entries, txns = _setup(kw)
         conn = _conn(entries)
         ftext, fpred = pick(FROMS, frm)
@@ -181,6 +184,11 @@ PRINT_FILTERS = [
     ("'link1' IN links", lambda e: isinstance(e, data.Transaction) and 'link1' in e.links),
     ("tags IS NOT NULL", lambda e: isinstance(e, data.Transaction)),
     ("links IS NULL AND day < 20", lambda e: not isinstance(e, data.Transaction) and e.date.day < 20),
+    # OR with an operand that is NULL for some directives (transaction-only columns) before a true one
+    ("narration ~ 'lunch' OR type = 'balance'", lambda e: isinstance(e, data.Balance) or
+     (isinstance(e, data.Transaction) and re.search('lunch', e.narration or '', re.I))),
+    ("payee ~ 'cafe' OR flag = '!' OR type = 'note' OR day = 3", lambda e: isinstance(e, data.Note) or e.date.day == 3 or
+     (isinstance(e, data.Transaction) and (e.flag == '!' or re.search('cafe', e.payee or '', re.I)))),
 ]
 
 PRECISE_LEDGER = ledger.LEDGER_TEXT + '''
